@@ -63,7 +63,7 @@ class DictWorld(HistoryWorld):
             d = min(1022, self.LADDER_DEPTHS[run_index % len(self.LADDER_DEPTHS)] + (run_index // len(self.LADDER_DEPTHS)))
             return {'n': rng.choice([1023, 1023, max(d + 1, rng.choice([600, 800]))]), 'vk': 'u16', 'steps': d + 4, 'ladder': d, 'kser': False}
         n = rng.choice([1, 2, 3, 4, 5, 7, 8, 9, 16, 31, 32, 33, 64, 255, 256, 257, 267, 512, 1000, 1023, rng.randint(1, 1023)])
-        return {'n': n, 'vk': rng.choice(['u16', 'u16', 'coins', 'cell', 'i8', 'u1', 'addr', 'ref3', 'addr_any']), 'mirror': rng.random() < 0.5, 'steps': rng.choice([4, 8, 16, 40]), 'kser': rng.random() < 0.12}
+        return {'n': n, 'vk': rng.choice(['u16', 'u16', 'coins', 'cell', 'i8', 'u1', 'addr', 'ref3', 'addr_any', 'map']), 'mirror': rng.random() < 0.5, 'steps': rng.choice([4, 8, 16, 40]), 'kser': rng.random() < 0.12}
 
     def new_state(self, ctx):
         st = St()
@@ -89,6 +89,15 @@ class DictWorld(HistoryWorld):
             h.with_address_values()
         elif vk == 'ref3':
             h.value_serializer = lambda src, dest: dest.store_uint(src & 7, 3).store_ref(Builder().store_uint(src, 16).end_cell())
+        elif vk == 'map':
+            # a map of maps (e.g. owner -> {token -> balance}): the value serialiser builds and serialises an INNER dictionary
+            # while the outer one is being written - the dictionary writer is entered again before it has finished
+            def ser_inner(src, dest):
+                inner = HashMap(8).with_uint_values(16)
+                for k2, v2 in src[1]:
+                    inner.set(k2, v2)
+                dest.store_uint(src[0], 3).store_dict(inner.serialize())
+            h.value_serializer = ser_inner
         if vk == 'u16':
             h.with_uint_values(16)
         elif vk == 'u1':
@@ -108,6 +117,8 @@ class DictWorld(HistoryWorld):
         return a
 
     def _lib_value(self, st, v):
+        if st.vk == 'map':
+            return self._norm(st, v)
         if st.vk == 'addr_any':
             # addresses of few accounts, with and without anycast info: values that compare equal (Address.__eq__ looks at workchain
             # and account only) and are nevertheless different values with different encodings
@@ -124,6 +135,8 @@ class DictWorld(HistoryWorld):
         return v
 
     def _norm(self, st, v):
+        if st.vk == 'map':
+            return (v & 7, tuple(sorted({v & 0xFF: v, (v >> 8) & 0xFF: (v * 7) & 0xFFFF, (v >> 4) & 0xFF: v ^ 0xFFFF}.items())))
         if st.vk == 'addr_any':
             return ('addr', ((v >> 2) & 3) - 1, hashlib.sha256(b'%d' % ((v >> 2) & 7)).digest(), self.ANY[v & 3])
         if st.vk == 'addr':
@@ -140,6 +153,8 @@ class DictWorld(HistoryWorld):
 
     def _vbits(self, st, v):
         vk = st.vk
+        if vk == 'map':
+            return tlb.enc_uint(v[0], 3) + '1'
         if vk == 'addr_any':
             return tlb.enc_addr_std(v[1], v[2], v[3])
         if vk == 'addr':     # v is the normalised model value
@@ -156,6 +171,8 @@ class DictWorld(HistoryWorld):
 
     def _deser(self, st):
         vk = st.vk
+        if vk == 'map':
+            return lambda s: (s.load_uint(3), tuple(sorted(s.load_dict(8, lambda kb: int(kb, 2), lambda x: x.load_uint(16)).items())))
         if vk == 'addr_any':
             def dza(s):
                 a = s.load_address()
@@ -407,6 +424,8 @@ class DictWorld(HistoryWorld):
             self.V(ctx, 'insertion-order', 'serialize', 'keys-%s' % _kclass(len(model)), 'the same %d entries inserted in another order give a different cell' % len(model))
 
     def _vrefs(self, st, v):
+        if st.vk == 'map':
+            return (refhm.build_hashmap(dict(v[1]), 8, lambda x: (tlb.enc_uint(x, 16), ())),)
         if st.vk == 'ref3':
             from refmodel.rcell import RCell
             return (RCell(tlb.enc_uint(v[1], 16)),)
